@@ -1,3 +1,4 @@
+//go:build !verif
 // +build !verif
 
 package main
@@ -16,6 +17,9 @@ func tbReclaimed(tb *bitmap.TailBitmap) int64 { return -1 }
 
 func swCursor(w io.Writer) (int64, bool) { return 0, false }
 
-func hookSelect32Single(ws []uint64, sidx []int32, i int32) int32 { fatalf("needs -tags verif"); return 0 }
-func hookIndexSelectU64(w uint64) uint64                          { fatalf("needs -tags verif"); return 0 }
-func hookSelectU64Indexed(w, idx, i uint64) int32                 { fatalf("needs -tags verif"); return 0 }
+func hookSelect32Single(ws []uint64, sidx []int32, i int32) int32 {
+	fatalf("needs -tags verif")
+	return 0
+}
+func hookIndexSelectU64(w uint64) uint64          { fatalf("needs -tags verif"); return 0 }
+func hookSelectU64Indexed(w, idx, i uint64) int32 { fatalf("needs -tags verif"); return 0 }
